@@ -23,7 +23,10 @@
 
 #include <iostream>
 #include <map>
+#include <condition_variable>
 #include <memory>
+#include <mutex>
+#include <thread>
 #include <string>
 
 #include "sinks/filesink.h"
@@ -34,11 +37,22 @@ using namespace QtLogger;
 
 namespace {
 
+std::mutex g_emitMx;
+
 void emitLine(const QJsonObject &o)
 {
     QByteArray b = QJsonDocument(o).toJson(QJsonDocument::Compact);
     b.append('\n');
-    vfs::realWrite(1, b.constData(), (unsigned long)b.size());
+    std::lock_guard<std::mutex> lk(g_emitMx);
+    const char *p = b.constData();
+    long left = b.size();
+    while (left > 0) {
+        const long w = vfs::realWrite(1, p, (unsigned long)left);
+        if (w <= 0)
+            break;
+        p += w;
+        left -= w;
+    }
 }
 
 struct Seen
@@ -266,6 +280,90 @@ int runScenario(const QJsonObject &scn)
     return 0;
 }
 
+// Two sinks, each in its own directory and driven by its own thread, start at the same moment: both find a large log
+// file left by an earlier run, rotate it on start-up and compress it - concurrently.  Events carry the directory
+// ("sub") so that the projection can follow each sink on its own.
+int runTwin(const QJsonObject &scn)
+{
+    const std::string root = scn["root"].toString().toStdString();
+    vfs::clearFaults();
+    vfs::setRoot(root);
+    vfs::setCallback(sysEvent);
+    vfs::setNowMs((long long)scn["now"].toDouble());
+    vfs::setQuiet(true);
+    QDir(QString::fromStdString(root)).removeRecursively();
+    vfs::setQuiet(false);
+    const QJsonArray subs = scn["subs"].toArray();
+    for (const auto &v : subs) {
+        vfs::setQuiet(true);
+        QDir().mkpath(QString::fromStdString(root) + "/" + v.toString());
+        vfs::setQuiet(false);
+    }
+    for (const auto &p : scn["plants"].toArray()) {
+        QJsonObject o = p.toObject();
+        plant(root + "/" + o["sub"].toString().toStdString(), o);
+    }
+    std::mutex listMx;
+    auto listSub = [&](const QString &sub, bool force) {
+        std::lock_guard<std::mutex> lk(listMx);
+        g_seen.clear();
+        (void)force;
+        return listDir(root + "/" + sub.toStdString(), true);
+    };
+    {
+        QJsonObject o;
+        o["e"] = "Reset";
+        o["scn"] = scn["id"].toInt();
+        QJsonObject lists;
+        for (const auto &v : subs)
+            lists[v.toString()] = listSub(v.toString(), true);
+        o["lists"] = lists;
+        emitLine(o);
+    }
+    std::mutex mx;
+    std::condition_variable cv;
+    int ready = 0;
+    const int n = subs.size();
+    std::vector<std::thread> threads;
+    for (const auto &v : subs) {
+        const QString sub = v.toString();
+        threads.emplace_back([&, sub] {
+            auto ev = [&](const char *e, const char *op, bool list) {
+                QJsonObject o;
+                o["e"] = e;
+                o["sub"] = sub;
+                if (op)
+                    o["op"] = op;
+                if (list)
+                    o["list"] = listSub(sub, true);
+                emitLine(o);
+            };
+            const QString path = QString::fromStdString(root) + "/" + sub + "/" + scn["file"].toString();
+            ev("Begin", "ctor", false);
+            std::unique_ptr<FileSink> sink(new RotatingFileSink(path, scn["L"].toInt(), scn["N"].toInt(),
+                                                                RotatingFileSink::Options(scn["opts"].toInt())));
+            ev("End", nullptr, true);
+            {
+                std::unique_lock<std::mutex> lk(mx);
+                ++ready;
+                cv.notify_all();
+                cv.wait(lk, [&] { return ready >= n; });
+            }
+            ev("Begin", "send", false);
+            QMessageLogContext ctx;
+            LogMessage msg(QtDebugMsg, ctx, QString::fromUtf8(QByteArray::fromBase64(scn["b64"].toString().toLatin1())));
+            sink->send(msg);
+            ev("End", nullptr, true);
+            ev("Begin", "destroy", false);
+            sink.reset();
+            ev("End", nullptr, true);
+        });
+    }
+    for (auto &t : threads)
+        t.join();
+    return 0;
+}
+
 } // namespace
 
 int main(int argc, char **argv)
@@ -292,6 +390,11 @@ int main(int argc, char **argv)
         if (line.trimmed().isEmpty())
             continue;
         QJsonObject scn = QJsonDocument::fromJson(line).object();
+        if (scn["twin"].toBool()) {
+            runTwin(scn);
+            g_hitAny = true;
+            continue;
+        }
         if (scn["crash"].toObject().isEmpty()) {
             runScenario(scn);
             continue;
